@@ -50,8 +50,10 @@ def build_kani(crate, log):
     t0 = time.time()
     with open(os.path.join(BUILD, f"{crate}.lock"), "w") as lk:
         fcntl.flock(lk, fcntl.LOCK_EX)
+        # `--only-codegen` would also link every harness (about 1 s each, redone by each run);
+        # asking for a harness that does not exist stops kani-driver right after the cargo build.
         p = subprocess.run(
-            ["cargo", "kani", "--only-codegen", "-Z", "stubbing", "--target-dir", tdir],
+            ["cargo", "kani", "--harness", "__build_only__", "--exact", "-Z", "stubbing", "--target-dir", tdir],
             cwd=os.path.join(KANI_DIR, crate),
             env=crate_env(crate),
             stdout=subprocess.PIPE,
@@ -60,7 +62,8 @@ def build_kani(crate, log):
         )
     with open(log, "w") as f:
         f.write(p.stdout)
-    if p.returncode != 0:
+    built = "Failed to match the following harness" in p.stdout and "could not compile" not in p.stdout
+    if p.returncode != 0 and not built:
         errs = [l for l in p.stdout.splitlines() if l.startswith("error")]
         raise BuildError(f"kani build of {crate} failed: {errs[:5]} (log {log})")
     return time.time() - t0
